@@ -136,13 +136,15 @@ func (br *xmpReader) readAttrValue(tag *Tag) (buf []byte, err error) {
 
 		if buf[0] == '=' && (buf[1] == '"' || buf[1] == '\'') {
 			delim := buf[1]
-			if b := bytes.IndexByte(buf[i:], delim); b >= 0 {
+			// The closing quote and the two bytes after it ("/>") must be inside
+			// the window, unless the input ends there.
+			if b := bytes.IndexByte(buf[i:], delim); b >= 0 && (i+b+2 < len(buf) || len(buf) < s) {
 				i += b
 				d = i + 1
-				if buf[i+1] == '>' {
+				if i+1 < len(buf) && buf[i+1] == '>' {
 					d++
 					br.a = false
-				} else if buf[i+1] == '/' && buf[i+2] == '>' {
+				} else if i+2 < len(buf) && buf[i+1] == '/' && buf[i+2] == '>' {
 					d += 2
 					tag.t = soloTag
 					br.a = false
@@ -165,7 +167,7 @@ func (br *xmpReader) readTagHeader(parent Tag) (tag Tag, err error) {
 	s := maxTagHeaderSize
 	// Read Tag Header
 	var buf []byte
-	var i int
+	var i, d int
 	for {
 		if buf, err = br.Peek(s); err != nil {
 			err = errors.Wrap(err, "Tag Header")
@@ -175,37 +177,42 @@ func (br *xmpReader) readTagHeader(parent Tag) (tag Tag, err error) {
 		// Find Start of Tag
 		for ; i < len(buf); i++ {
 			if buf[i] == '<' {
-				if buf[i+1] == '/' {
-					tag.t = stopTag
-					i += 2
-				} else if buf[i+1] == '?' {
-					err = io.EOF
-					return
-				} else {
-					tag.t = startTag
-					i++
-				}
-				buf = buf[i:]
-				goto end
+				break
 			}
 		}
-		// large white spaces in xmp files
-
+		// The whole header must be inside the window: '<', the tag name and
+		// the bytes that end it. Otherwise look further ahead
+		// (large white spaces in xmp files).
+		if i+1 < len(buf) {
+			n := i + 1
+			if buf[i+1] == '/' {
+				tag.t = stopTag
+				n++
+			} else if buf[i+1] == '?' {
+				err = io.EOF
+				return
+			} else {
+				tag.t = startTag
+			}
+			name := buf[n:]
+			if tag.self, d, err = parseTagName(name); err == nil && d >= 0 && d < len(name) && (d+1 < len(name) || len(buf) < s) {
+				buf, i = name, n
+				break
+			}
+		}
+		if len(buf) < s && i < len(buf) {
+			// the input ends inside the tag header
+			err = errors.Wrap(ErrNegativeRead, "Tag Header (tag name)") // Err finding tag name
+			return
+		}
 		s += maxTagHeaderSize
-	}
-end:
-	var d int
-	tag.self, d, err = parseTagName(buf)
-	if err != nil {
-		err = errors.Wrap(err, "Tag Header (tag name)") // Err finding tag name
-		return
 	}
 	if buf[d] == '>' {
 		br.a = false // No Attributes
 		d++
 	} else if buf[d] == ' ' || buf[d] == '\n' { // Attributes
 		br.a = true
-	} else if buf[d] == '/' && buf[d+1] == '>' { // SoloTag
+	} else if buf[d] == '/' && d+1 < len(buf) && buf[d+1] == '>' { // SoloTag
 		br.a = false // No Attributes
 		tag.t = soloTag
 		d += 2
